@@ -82,9 +82,8 @@ class Resolver:
         pairs: List[Tuple[str, ast.AST]] = []
         if isinstance(n, ast.Assign) and len(n.targets) == 1 and isinstance(n.targets[0], ast.Name):
             # a freshly built container is an object with identity (it is filled later), not a value to substitute
-            # ... unless it is built in one go (a comprehension) and never changed afterwards
-            if not _is_container_display(n.value) or (isinstance(n.value, (ast.ListComp, ast.SetComp, ast.DictComp))
-                                                      and n.targets[0].id not in self.mutated):
+            # ... unless it is never changed after it was built
+            if not _is_container_display(n.value) or n.targets[0].id not in self.mutated:
                 pairs.append((n.targets[0].id, n.value))
         elif isinstance(n, ast.Assign) and len(n.targets) == 1 and isinstance(n.targets[0], (ast.Tuple, ast.List)):
             t = n.targets[0]
@@ -187,8 +186,16 @@ def elementwise(fn: ast.AST, value: ast.AST):
     """
     from .guards import path_conditions
     v = value
-    while isinstance(v, ast.Call) and norm(v.func) in ("tuple", "list") and len(v.args) == 1:
-        v = v.args[0]
+    for _ in range(3):
+        while isinstance(v, ast.Call) and norm(v.func) in ("tuple", "list") and len(v.args) == 1:
+            v = v.args[0]
+        if isinstance(v, ast.Name):
+            # a local that holds a comprehension (never changed afterwards) is that comprehension
+            d = Resolver(fn).defs.get(v.id)
+            if isinstance(d, (ast.ListComp, ast.GeneratorExp)):
+                v = d
+                continue
+        break
     if isinstance(v, (ast.ListComp, ast.GeneratorExp)) and len(v.generators) == 1:
         g = v.generators[0]
         return v.elt, norm(g.target), g.iter, bool(g.ifs)
